@@ -409,7 +409,10 @@ def clearUp (A : List Cell) : Nat → Nat → List Cell
       | none => A.set idx (.node cls ty c m args l none)
     | _ => A
 
-/-- one iteration of the `for payload in tail` loop, given the freshly built node -/
+/-- one iteration of the `for payload in tail` loop, given the freshly built node.  `load` and `__deepcopy__` only call
+    `set(arg_key, value)` / `append(arg_key, value)` — never `set(…, index=…)` — so the positional-edit branch of `set`
+    (`if index is not None:` — list surgery, negative-index normalisation, sibling renumbering) is outside this mirror
+    and no theorem about arenas depends on it. -/
 def attach (A : List Cell) (cell : Cell) (idx : Nat) (k : String) (isArr : Bool) : Option (List Cell) :=
   if idx < A.length then          -- (`nodes[len(nodes)-1]` = the node itself would build a cycle: not modelled)
     let B := clearUp A A.length idx
@@ -601,6 +604,110 @@ def copyArena (hashOf : Val → Option Nat) (t : Val) : Option (List Cell) :=
 
 def copy (hashOf : Val → Option Nat) (t : Val) : Option Val :=
   (copyArena hashOf t).bind fun B => reify B t.size 0
+
+/-! ## which mutable containers a loaded tree shares with the payload list it came from
+
+  `load` stores some payload values into node fields *as they are* (`expression.comments = payload.get(COMMENTS)`,
+  `node = payload[VALUE]`, the `else v` of the meta comprehension) and builds others anew (the meta dict comprehension,
+  `list(payload[COMMENTS])` once `_load` copies).  Containers (lists / dicts) are identified by where they were created;
+  scalars are immutable and not tracked.  A path is the position of a payload dict: `[i]` for the i-th payload of the
+  list, `p ++ [0, j]` for the j-th payload of the TYPE list of the payload at `p`, `p ++ [e + 1, j]` for the j-th payload
+  of the `__expr__` list of its e-th meta entry.  Which of the two ways `_load` takes is read off the source on every run
+  (`SharePolicy`, Generated/C12.lean). -/
+
+inductive Field where
+  | comments
+  | mta
+  | value
+  | metaValue (k : String)
+deriving DecidableEq, Repr
+
+inductive Obj where
+  | pay (path : List Nat) (f : Field)     -- a container that belongs to the payload list
+  | made (path : List Nat) (f : Field)    -- a container `_load` created for the node built from the payload at `path`
+deriving DecidableEq, Repr
+
+def Obj.isPay : Obj → Bool
+  | .pay .. => true
+  | .made .. => false
+
+structure SharePolicy where
+  /-- `expression.comments = list(payload[COMMENTS]) …` (true) or `= payload.get(COMMENTS)` (false) -/
+  loadCopiesComments : Bool
+  /-- `_load` always builds the node's `_meta` dict with the comprehension (true), or may hand over the payload's own -/
+  loadBuildsMetaDict : Bool
+
+def Raw.isArr : Raw → Bool
+  | .arr _ => true
+  | _ => false
+
+def valueObj (p : List Nat) : Option Raw → List Obj
+  | some (.arr _) => [.pay p .value]
+  | _ => []
+
+/- the containers of the payload list (the payload dicts themselves are never stored by `load`) -/
+mutual
+def payObjs : Payload → List Nat → List Obj
+  | .mk _ _ _ _ ty c m v, p =>
+    (if c.isSome then [Obj.pay p .comments] else []) ++ (if m.isSome then [Obj.pay p .mta] else []) ++
+      valueObj p v ++ payObjsTy ty p ++ payObjsMeta m p
+def payObjsList : List Payload → List Nat → Nat → List Obj
+  | [], _, _ => []
+  | q :: qs, p, i => payObjs q (p ++ [i]) ++ payObjsList qs p (i + 1)
+def payObjsTy : Option (List Payload) → List Nat → List Obj
+  | none, _ => []
+  | some ps, p => payObjsList ps (p ++ [0]) 0
+def payObjsMeta : Option (List PMeta) → List Nat → List Obj
+  | none, _ => []
+  | some l, p => payObjsMetaL l p 1
+def payObjsMetaL : List PMeta → List Nat → Nat → List Obj
+  | [], _, _ => []
+  | .raw k r :: es, p, e => (if r.isArr then [Obj.pay p (.metaValue k)] else []) ++ payObjsMetaL es p (e + 1)
+  | .expr _ ps :: es, p, e => payObjsList ps (p ++ [e]) 0 ++ payObjsMetaL es p (e + 1)
+end
+
+/- the containers the fields of the loaded nodes point at -/
+mutual
+def loadRefs (pol : SharePolicy) : Payload → List Nat → List Obj
+  | .mk _ _ _ _ ty c m v, p =>
+    (if c.isSome then [if pol.loadCopiesComments then Obj.made p .comments else Obj.pay p .comments] else []) ++
+      (if m.isSome then [if pol.loadBuildsMetaDict then Obj.made p .mta else Obj.pay p .mta] else []) ++
+      valueObj p v ++                                  -- `node = payload[VALUE]`
+      loadRefsTy pol ty p ++ loadRefsMeta pol m p
+def loadRefsList (pol : SharePolicy) : List Payload → List Nat → Nat → List Obj
+  | [], _, _ => []
+  | q :: qs, p, i => loadRefs pol q (p ++ [i]) ++ loadRefsList pol qs p (i + 1)
+def loadRefsTy (pol : SharePolicy) : Option (List Payload) → List Nat → List Obj
+  | none, _ => []
+  | some ps, p => loadRefsList pol ps (p ++ [0]) 0
+def loadRefsMeta (pol : SharePolicy) : Option (List PMeta) → List Nat → List Obj
+  | none, _ => []
+  | some l, p => loadRefsMetaL pol l p 1
+def loadRefsMetaL (pol : SharePolicy) : List PMeta → List Nat → Nat → List Obj
+  | [], _, _ => []
+  | .raw k r :: es, p, e =>                             -- `… else v`: the value itself
+    (if r.isArr then [Obj.pay p (.metaValue k)] else []) ++ loadRefsMetaL pol es p (e + 1)
+  | .expr _ ps :: es, p, e => loadRefsList pol ps (p ++ [e]) 0 ++ loadRefsMetaL pol es p (e + 1)
+end
+
+/- no list-valued raw VALUE / meta value anywhere (no parser stores one) -/
+mutual
+def noArr : Payload → Bool
+  | .mk _ _ _ _ ty _ m v => (match v with | some (.arr _) => false | _ => true) && noArrTy ty && noArrMeta m
+def noArrList : List Payload → Bool
+  | [] => true
+  | q :: qs => noArr q && noArrList qs
+def noArrTy : Option (List Payload) → Bool
+  | none => true
+  | some ps => noArrList ps
+def noArrMeta : Option (List PMeta) → Bool
+  | none => true
+  | some l => noArrMetaL l
+def noArrMetaL : List PMeta → Bool
+  | [] => true
+  | .raw _ r :: es => !r.isArr && noArrMetaL es
+  | .expr _ ps :: es => noArrList ps && noArrMetaL es
+end
 
 /-! ## pickling: `Expression.__reduce__` -/
 
